@@ -101,6 +101,12 @@ CHECKS.update({
    text="A small model tracks what users made of the remote tree, which files were created locally, requested or match the auto-sync predicate; after every engine step and application call the local tree may only contain such files, the engine's call log may only download such files and may never delete remotely; at quiet both trees and every folder listing (name -> is_synced) must equal the model.",
    note=E_NOTE + " Renames and local deletes are outside the generated domain."),
 })
+CHECKS.update({
+ "C16": dict(engine="provider-model", category="exploration", design_ref="2/C16",
+   technique="model-based property testing of the provider API: Hypothesis-generated call sequences (incl. stale ids, missing parents, case variants, five file-size classes) against a reference file tree for four MockProvider flavours and the FileSystemProvider on a scratch directory; per-call result/exception-class oracle, cross-agreement of all read calls, id-stability and hash laws, event-stream completeness; separate identity/single-use scenarios",
+   text="Every call's result or exception class is compared with the reference tree; after every call all read calls must agree with the tree and with each other, ids must be stable (id-style) or equal the normalised path (path-style), info.hash must equal hash_data of the same bytes with equal hash iff equal bytes, and the event stream must report every successful mutation.",
+   note="Trusted: the reference tree and the documented error classes. Filesystem events are asynchronous: 5 s polling, one whole-case retry, and the object's final existence is accepted in the event. KF-22 (mock path-style + case-insensitive) is fenced off (lower-case names only) and replayed."),
+})
 NOT_YET = {}
 
 def main():
